@@ -13,6 +13,7 @@ MODULES = {
     "C07": "disk", "C08": "disk", "C15": "disk",
     "C09": "vfile", "C10": "vfile", "C11": "vfile", "C16": "vfile",
     "C01": "asm", "C12": "asm", "C02": "asm", "C03": "asm", "C04": "asm", "C05": "asm", "C13": "asm",
+    "C17": "asm_meta", "C18": "asm_meta", "C19": "asm_meta",
 }
 
 
